@@ -429,6 +429,47 @@ Definition load_file (rf : fmt -> string -> string) (T : fields) (f : fmt) (use_
            (env : list (string * string)) (d : doc) : result gval :=
   load_doc rf T f (if use_env then expand_doc env d else d).
 
+(* conf.Load picks the loader by the lower-cased file extension *)
+Definition fmt_of_ext (e : string) : option fmt :=
+  let l := lower e in
+  if String.eqb l ".json" then Some FJson
+  else if String.eqb l ".yaml" || String.eqb l ".yml" then Some FYaml
+  else if String.eqb l ".toml" then Some FToml
+  else None.                                         (* "unrecognized file type" *)
+
+Definition load_path (rf : fmt -> string -> string) (T : fields) (ext : string) (d : doc) : result gval :=
+  match fmt_of_ext ext with
+  | Some f => load_doc rf T f d                      (* the file holds the document rendered in that format *)
+  | None => Err EDoc
+  end.
+
+(* conf.FillDefault: Unmarshal(map[string]any{}, v) with mapping.WithDefault(): declared defaults are
+   set, non-pointer struct fields are filled recursively, everything else stays zero *)
+Fixpoint fill_type (t : ftype) : result gval :=
+  match t with
+  | TStruct fs => rmap VStruct (fill_fields fs)
+  | _ => Ok (zero t)
+  end
+with fill_fields (fs : fields) : result (list gval) :=
+  match fs with
+  | FNil => Ok []
+  | FCons key o t rest =>
+    x <- (_ <- guard (opts_ok o) ETag ;;
+          match o with
+          | Some o' => match o_default o' with Some d => um_default t d | None => fill_type t end
+          | None => fill_type t
+          end) ;;
+    xs <- fill_fields rest ;;
+    Ok (x :: xs)
+  | FEmbed opt ptr inner rest =>
+    x <- (if opt then Ok (if ptr then VNil else VStruct (zero_fields inner))
+          else xs <- fill_fields inner ;; Ok (if ptr then VPtr (VStruct xs) else VStruct xs)) ;;
+    ys <- fill_fields rest ;;
+    Ok (x :: ys)
+  end.
+
+Definition fill_default (T : fields) : result gval := rmap VStruct (fill_fields T).
+
 (* ------------------------------------------------------------------ reference decoder: encoding/json *)
 
 Fixpoint field_keys (fs : fields) : list string :=
